@@ -1,6 +1,7 @@
 #!/usr/bin/env python3
 """Shared machinery of the checks: run drivers, run TLC (design models and trace validation),
 classify hits, write evidence, print verdict lines."""
+import hashlib
 import json
 import os
 import re
@@ -16,8 +17,13 @@ import build as B  # noqa: E402
 
 SPEC = os.path.join(ROOT, "spec")
 CACHE = os.path.join(ROOT, ".cache")
-EVID = os.path.join(ROOT, "evidence")
 TLA_CP = "/opt/veriftools/tla/tla2tools.jar:/opt/veriftools/tla/CommunityModules-deps.jar"
+# scratch space of this run; runs against another checkout (VERIF_REPO=<worktree>, used to test seeded changes in parallel) get their own
+_REPO = os.environ.get("VERIF_REPO", "/repo")
+WORK = os.path.join(CACHE, "work" if _REPO == "/repo" else "work_" + hashlib.sha256(_REPO.encode()).hexdigest()[:10])
+# evidence and replays of runs against another checkout never touch the committed evidence of /repo
+EVID = os.path.join(ROOT, "evidence") if _REPO == "/repo" else os.path.join(WORK, "evidence")
+REPLAY = os.path.join(CACHE, "replay") if _REPO == "/repo" else os.path.join(WORK, "replay")
 
 
 class Infra(Exception):
@@ -25,7 +31,7 @@ class Infra(Exception):
 
 
 def workdir(name):
-    d = os.path.join(CACHE, "work", name)
+    d = os.path.join(WORK, name)
     shutil.rmtree(d, ignore_errors=True)
     os.makedirs(d, exist_ok=True)
     return d
@@ -148,7 +154,7 @@ def run_traces(module, cfg, traces, jobs=8, timeout=900):
 
 def run_model(module, cfg, workers=8, timeout=1500, xmx="8g", name=None, extra=None):
     """Exhaustive TLC run of a design configuration.  Returns dict(ok, states, generated, violated, wall, tail)."""
-    md = os.path.join(CACHE, "work", "meta_" + (name or os.path.basename(cfg)))
+    md = os.path.join(WORK, "meta_" + (name or os.path.basename(cfg)))
     shutil.rmtree(md, ignore_errors=True)
     t0 = time.time()
     try:
@@ -198,7 +204,7 @@ def write_evidence(prop, tier, seed, level, coverage, assumptions, wall, violati
 
 def save_replay(prop, idx, desc, driver, trace_file, run_index, hits, extra=None):
     """Write a replay directory for a violation: the descriptor, the trace slice of that run, the hits."""
-    d = os.path.join(CACHE, "replay", prop, "v%03d" % idx)
+    d = os.path.join(REPLAY, prop, "v%03d" % idx)
     shutil.rmtree(d, ignore_errors=True)
     os.makedirs(d, exist_ok=True)
     with open(os.path.join(d, "desc.txt"), "w") as fh:
